@@ -68,9 +68,22 @@ def gen_sel_item(rng, n, cls):
 
 
 def gen_which(rng, n):
-    cls = rng.choice(["none", "low", "low", "high", "high", "all", "mid", "mid", "wild", "wild", "empty", "oob", "allm"])
+    cls = rng.choice(["none", "low", "low", "high", "high", "all", "mid", "mid", "wild", "wild", "empty", "oob", "allm", "ucover"])
     if cls == "none":
         return None, cls
+    if cls == "ucover":
+        # every position selected, UNEQUALLY often, the number of selected items a multiple of n
+        if n < 2:
+            return [{"i": 0}, {"i": 0}], cls
+        j = rng.randrange(n)
+        extra = [{"i": rng.choice([j, j - n])} for _ in range(n * rng.randint(1, 2))]
+        if rng.random() < 0.3:
+            extra[0] = {"i": (j + 1) % n}
+            extra.append({"i": j}) if False else None
+        items = ([{"s": [None, None, None]}] if rng.random() < 0.4 else [{"i": i} for i in range(n)]) + extra
+        if rng.random() < 0.5:
+            rng.shuffle(items)
+        return items, cls
     if cls == "allm":
         m = rng.randint(1, 3)
         items = [{"s": [None, None, None]}] * m if rng.random() < 0.5 else [{"i": i} for i in range(n)] * m
